@@ -435,11 +435,31 @@ def _exact_ranges(tid, g, pub, images):
     return out
 
 
-def _write_failed(writes):
+def _effective(outs, ts, late_delay):
+    """Outcomes as the library can see them: a late answer (4) that arrives after the end of the last wait is lost (2);
+    None if it arrives within 30 ms of that instant (not judged)."""
+    end = ts[-1] + 2.5
+    eff = []
+    for o, t in zip(outs, ts):
+        if o == 4:
+            arr = t + late_delay
+            if arr > end + 0.03:
+                o = 2
+            elif arr > end - 0.03:
+                return None
+        eff.append(o)
+    return eff
+
+
+def _write_failed(writes, late_delay=2.6):
     """True if, by the retry rule, some flash-write command of this image must be treated as failed."""
     attempts = {}
+    times = {}
     for (t, tid, bpage, fpage, n, outcome) in writes:
         attempts.setdefault((bpage, fpage, n), []).append(outcome)
+        times.setdefault((bpage, fpage, n), []).append(t)
+    for k_ in list(attempts):
+        attempts[k_] = _effective(attempts[k_], times[k_], late_delay) or attempts[k_]
     for outs in attempts.values():
         answered = [o for o in outs if o in (0, 3, 4)]
         if answered and answered[0] == 3:
@@ -661,11 +681,20 @@ def _oracle_target(ctx, tgt, tid, ps, bp, fp, start, image, fits, cmds, loads, w
     # group flash-write attempts by identical command
     attempts = {}
     order = []
+    times = {}
     for (t, tid2, bpage, fpage, n, outcome) in writes:
         k = (bpage, fpage, n)
         if k not in attempts:
             order.append(k)
         attempts.setdefault(k, []).append(outcome)
+        times.setdefault(k, []).append(t)
+    # a late answer only counts if it arrives before the library's last wait (2.5 s after the last transmission) is over
+    for k in order:
+        eff = _effective(attempts[k], times[k], getattr(tgt, 'late_delay', 2.6))
+        if eff is None:
+            ctx.probe('late answer at the edge of the last wait: retry clause not judged')
+            return
+        attempts[k] = eff
     failed = None
     for k in order:
         outs = attempts[k]
